@@ -87,14 +87,14 @@ package dhcpv6
 //@ func (s *Server) releaseAddress
 //@   ghost v6RelAddr mathint = 0
 //@   ghost v6Quarantined mathint = 0
-//@   modifies s.addressPool.allocated, s.addressPool.available, s.addressPool.quarantined
+//@   modifies s.addressPool.allocated, s.addressPool.available, s.addressPool.quarantined, s.addressAllocator.allocator.bitmap, s.addressAllocator.allocator.allocatedCount, s.addressAllocator.allocator.nextFree, s.addressAllocator.allocator.allocated, s.addressAllocator.allocator.indexToSubscriber
 //@   ensures old(s.addressAllocator) == nil && old(s.addressPool) != nil ==> v6Quarantined == ite(quarantine, 1, 0) && v6RelAddr == ite(quarantine, 0, 1)
 //@   ensures old(s.addressAllocator) != nil ==> v6Quarantined == 0 && v6RelAddr == 0
 //@   sets relAddrCalls = relAddrCalls + 1
 //@   sets relAddrQuar = relAddrQuar + ite(quarantine, 1, 0)
 
 //@ func (s *Server) releasePrefix
-//@   modifies s.prefixPool.allocated, s.prefixPool.available
+//@   modifies s.prefixPool.allocated, s.prefixPool.available, s.prefixAllocator.allocator.bitmap, s.prefixAllocator.allocator.allocatedCount, s.prefixAllocator.allocator.nextFree, s.prefixAllocator.allocator.allocated, s.prefixAllocator.allocator.indexToSubscriber
 //@   sets v6RelPrefix = v6RelPrefix + 1
 
 //@ func (m *Message) GetOption
